@@ -339,6 +339,32 @@ theorem app_reused_eq_fresh (env : Env) (cv : Conv) (app : List Cmd) (hs : Handl
     app_run_stateless env cv app hs _ (initState_restored raw parsers)]
 
 section AppDemo
+/-- **the I/O of a run is decided by the tokens of that run alone**: whatever state the application object is in,
+the I/O configuration a run builds (ANSI mode, verbosity, quiet, interaction - what its handler finds on entry) is
+`create_io` of this line's tokens.  Nothing of an I/O object is part of the state a run leaves: the I/O is created per
+run and handed to the handler, which may do to it what it likes (a handler is a parameter of the model). -/
+theorem app_io_of_tokens (env : Env) (cv : Conv) (app : List Cmd) (hs : Handlers) (s : AppState) (toks : List Str) :
+    (runAppS env cv app hs s toks).1.io = Switches.createIO toks env.debug := by
+  unfold runAppS runAppSP
+  simp only []
+  split <;> rfl
+
+/-- hence, after ANY history of lines (and handlers) on one application object, the handler of the next line finds
+the I/O configuration a fresh application gives it -/
+theorem app_io_history_independent (env : Env) (cv : Conv) (app : List Cmd) (hs : Handlers)
+    (raw : List (List Str × Option Bool)) (parsers : List (List Str × Nat)) (hist : List (List Str)) (final : List Str) :
+    (runAppS env cv app hs (runHistoryS env cv app hs (initState raw parsers) hist).2 final).1.io =
+      (runApp env cv app hs final).io ∧
+    (runApp env cv app hs final).io = Switches.createIO final env.debug := by
+  refine ⟨?_, ?_⟩
+  · rw [app_io_of_tokens]
+    unfold runApp
+    simp only []
+    split <;> rfl
+  · unfold runApp
+    simp only []
+    split <;> rfl
+
 open Clikit.AppState.Demo
 
 /-- **D21 as a proved counterexample**: with the protocol before the repair (leniency switched off, and only after
